@@ -262,13 +262,24 @@ pub fn eval_c10(sc: &Scenario, h: &History, _signed: &Signeds, out: &mut Outcome
                     None => wrong(out, "mint_pointer_out_of_range", format!("but there are {} policies", policies.len())),
                 },
                 (Purpose::Cert(cb), 2) => match certs.get(idx) {
-                    Some(n) if v.span(n) == &cb[..] => {}
+                    Some(n) if v.span(n) == &cb[..] => {
+                        // must be script-locked: the ledger asks a script witness for this certificate
+                        if let Ok(f) = oracle::cert_facts(n, &sc.knobs) {
+                            if f.scripts.is_empty() {
+                                wrong(out, "cert_pointer_to_certificate_without_script", "which needs no script witness".into());
+                            }
+                        }
+                    }
                     Some(_) => wrong(out, "cert_pointer_wrong_certificate", "but that position holds another certificate".into()),
                     None => wrong(out, "cert_pointer_out_of_range", format!("but there are {} certificates", certs.len())),
                 },
                 (Purpose::Reward(acct), 3) => {
                     let ok_l = w_ledger.get(idx).map_or(false, |a| a == acct);
                     let ok_b = w_bytes.get(idx).map_or(false, |a| a == acct);
+                    // a reward account is script-locked iff its header says script credential (bit 4)
+                    if (ok_l || ok_b) && acct.first().map_or(false, |h| h & 0x10 == 0) {
+                        wrong(out, "reward_pointer_to_key_account", "which is a key account".into());
+                    }
                     if !ok_l && !ok_b {
                         let emitted_pos = wdrs.iter().position(|x| &x.0 == acct);
                         wrong(out, "reward_pointer_not_in_account_order", format!("but the account ranks {:?} in ledger order and {:?} in byte order (emitted position {:?})", w_ledger.iter().position(|a| a == acct), w_bytes.iter().position(|a| a == acct), emitted_pos));
@@ -284,6 +295,9 @@ pub fn eval_c10(sc: &Scenario, h: &History, _signed: &Signeds, out: &mut Outcome
                         let ok_l = v_ledger.get(idx).map_or(false, |x| x.0 == t && x.1 == hh);
                         let ok_b = v_bytes.get(idx).map_or(false, |x| x.0 == t && x.1 == hh);
                         let _ = voter_key;
+                        if (ok_l || ok_b) && !(t == 1 || t == 3) {
+                            wrong(out, "vote_pointer_to_key_voter", "which is not a script voter".into());
+                        }
                         if !ok_l && !ok_b {
                             wrong(out, "vote_pointer_not_in_voter_order", format!("but the voter ranks {:?} in ledger order and {:?} in byte order", v_ledger.iter().position(|x| x.0 == t && x.1 == hh), v_bytes.iter().position(|x| x.0 == t && x.1 == hh)));
                         }
